@@ -510,8 +510,8 @@ def interpret_filter_application(ctx, cond: str, rule_detections=None, draws=("x
     env = {"SigmaCorrelationRule": _Corr, "random": _Rand, "re": _re,
            "string": type("string", (), {"ascii_lowercase": "abcdefghijklmnopqrstuvwxyz"}),
            "copy": type("copy", (), {"deepcopy": staticmethod(lambda x: x), "copy": staticmethod(lambda x: x)})}
-    me = Proxy(prog, FQ, env, {"filter": filt, "_should_apply_on_rule": (lambda rule_: should_apply), "source": None}, interp_kwargs={"max_steps": 20000})
-    rule.returned = call_method(prog, FQ, "apply_on_rule", me, env, rule, interp_kwargs={"max_steps": 20000})
+    me = Proxy(prog, FQ, env, {"filter": filt, "_should_apply_on_rule": (lambda rule_: should_apply), "source": None}, interp_kwargs={"max_steps": 200000})
+    rule.returned = call_method(prog, FQ, "apply_on_rule", me, env, rule, interp_kwargs={"max_steps": 200000})
     return rule, filt
 
 
